@@ -407,6 +407,54 @@ fn run_threshold_sweep(cx: &mut CaseCx, case: &Value) {
   cx.outcome(format!("t%64={}", t % 64));
 }
 
+
+/// boundary search on the tag: measurements whose tag has a 0x00 / 0xff first or last byte, aggregated by the
+/// reference aggregation server (the "aggregation side" of the repository) - they must be revealed like any other
+fn run_boundary_tags(cx: &mut CaseCx, case: &Value) {
+  use star_test_utils::AggregationServer;
+  let lo = case["lo"].as_u64().unwrap();
+  let t = 2u32;
+  let server = AggregationServer::new(t, "e");
+  let mut hits = 0u64;
+  for i in lo..lo + 400 {
+    let meas = format!("tagged-measurement-{}", i).into_bytes();
+    let rnd = local_randomness(&meas, b"e", t);
+    let aux0 = Some(vec![1u8, 2, 3]);
+    let m0 = match gen_report(&meas, b"e", t, &rnd, &aux0) {
+      Ok(m) => m,
+      Err(_) => continue,
+    };
+    cx.count("tags_examined", 1);
+    let tag = &m0.tag;
+    if tag.len() != 32 || !(tag[0] == 0 || tag[0] == 0xff || tag[31] == 0 || tag[31] == 0xff || tag[0] == 0x7f || tag[0] == 0x80) {
+      continue;
+    }
+    hits += 1;
+    let m1 = match gen_report(&meas, b"e", t, &rnd, &None) {
+      Ok(m) => m,
+      Err(_) => continue,
+    };
+    cx.eval();
+    cx.count("states", 1);
+    cx.count("transitions", 1);
+    cx.nontrivial(fnv(&meas));
+    let d = || json!({"measurement": String::from_utf8_lossy(&meas), "tag_first_byte": tag[0], "tag_last_byte": tag[31]});
+    match guard(|| server.retrieve_outputs(&[m0.clone(), m1.clone()]).into_iter().map(|o| (o.x.as_vec(), o.aux.iter().map(|a| a.as_ref().map(|d| d.as_vec())).collect::<Vec<_>>())).collect::<Vec<_>>()) {
+      Ok(outs) => {
+        let mut auxs: Vec<Option<Vec<u8>>> = outs.get(0).map(|o| o.1.clone()).unwrap_or_default();
+        auxs.sort();
+        if outs.len() != 1 || outs[0].0 != meas || auxs != vec![None, Some(vec![1u8, 2, 3])] {
+          cx.viol("C01/boundary-tag/not-revealed", format!("measurement {:?} (tag bytes {:#04x}..{:#04x}) was reported by t = 2 clients; the aggregation server revealed {} measurement(s){}", String::from_utf8_lossy(&meas), tag[0], tag[31], outs.len(), if outs.len() == 1 { " with wrong content" } else { "" }), d());
+        } else {
+          cx.count("ok_recoveries", 1);
+        }
+      }
+      Err(p) => cx.viol("C01/boundary-tag/server-panicked", p, d()),
+    }
+  }
+  cx.count("boundary_tags_found", hits);
+}
+
 /// boundary search on an internal value: measurements whose sharing key K has a zero / 0xff first or last byte
 fn run_boundary_keys(cx: &mut CaseCx, case: &Value) {
   let t = case["t"].as_u64().unwrap() as u32;
@@ -541,6 +589,13 @@ pub fn spec() -> PropSpec {
         },
         run: run_threshold_sweep,
         min_counts: &[("ok_recoveries", 600)],
+      },
+      Check {
+        name: "boundary-tags",
+        rule: "boundary search on the report tag: among 2000 (thorough 8000) measurements those whose tag starts or ends with 0x00 / 0xff or starts with 0x7f / 0x80, each reported by exactly t = 2 clients and aggregated by the repository's reference aggregation server: revealed once, with both clients' associated data",
+        gen: |tier| (0..(if tier.thorough() { 20u64 } else { 5 })).map(|c| json!({"lo": c * 400})).collect(),
+        run: run_boundary_tags,
+        min_counts: &[("boundary_tags_found", 20)],
       },
       Check {
         name: "boundary-keys",
